@@ -51,6 +51,9 @@ def veq(e, x, y):
     if isinstance(x, BoxV) and isinstance(y, BoxV): return veq(e, x.slots[0], y.slots[0])
     if isinstance(x, Opaque) and isinstance(y, Opaque):
         if x.kind != y.kind: return False
+        if x.kind == 'Version':        # debversion's PartialEq is equality under Debian ordering, not of the spelling
+            from .models_ext import version_cmp
+            return version_cmp(e, x, y) == 0
         return veq(e, x.payload, y.payload)
     if hasattr(x, 'eq_value'): return x.eq_value(e, y)
     raise Unsupported('veq %r %r' % (type(x).__name__, type(y).__name__))
